@@ -1,9 +1,12 @@
 SPECIFICATION Spec
 CONSTANTS
-  Part = "intpow"
+  Part = "all"
   IntTypes <- TIntAll
   MaxE = 255
   MaxN = 200
+INVARIANT TableSound
+INVARIANT Pow2Sound
+INVARIANT RealSound
 INVARIANT IntPowMachineOK
 INVARIANT IntPowExact
 INVARIANT IntPowModular
